@@ -257,9 +257,32 @@ func checkC02(c C02Case, r *Rec) *Violation {
 
 var propC02 = Prop[C02Case]{
 	ID:    "C02",
-	Rule:  "typed random expression (all variables bound, failures from operators only) x cost map (incl. NaN/Inf/huge/negative) compiled under all 16 optimization subsets, each expressed in several ways (full map, sparse map, Optimizations option, ;;;; directives in 8 spellings (two of them say the opposite first and rely on the later directive winning), the directive over a config that says the opposite, options set on a CopyConfig / ExtendConf copy of a config that says the opposite); oracles: pairwise equal values, R_eager value everywhere, R value without Reordering, identical Dump/DumpTable across the four ways, outcome = R/R_fast on the configuration's own Dump. Non-trivial = at least two of the 16 dumps differ from the unoptimized dump; distinct by source + binding + costs",
+	Rule:  "typed random expression (all variables bound, failures from operators only) x cost map (incl. NaN/Inf/huge/negative) compiled under all 16 optimization subsets, each expressed in several ways (full map, sparse map, Optimizations option, ;;;; directives in 8 spellings (two of them say the opposite first and rely on the later directive winning), the directive over a config that says the opposite, options set on a CopyConfig / ExtendConf copy of a config that says the opposite); oracles: pairwise equal values, R_eager value everywhere, R value without Reordering, identical Dump/DumpTable across the four ways, outcome = R/R_fast on the configuration's own Dump. Whole-run bracket: 30 canary cases x 16 subsets give the same programs and outcomes before the first and after the last case of the shard. Non-trivial = at least two of the 16 dumps differ from the unoptimized dump; distinct by source + binding + costs",
 	Gen:   genC02,
 	Check: checkC02,
+}
+
+// c02Ask: what the 16 configurations make of a case (programs and outcomes), for the whole-run bracket.
+func c02Ask(c C02Case) string {
+	u := &c.U
+	if u.RegMode == RegVarAndOp {
+		u.RegMode = RegGetOrReg // (RegVarAndOp assigns keys in Go map order: not a function of the case)
+	}
+	src := m.Render(c.Tree)
+	out := ""
+	for mask := 0; mask < 16; mask++ {
+		run, v := runCfg("C02", u, src, Build{Mask: mask, How: HowMapAll, Costs: c.Costs})
+		if v != nil {
+			out += maskName(mask) + ": " + v.Msg + "\n"
+			continue
+		}
+		out += fmt.Sprintf("%s: %s\n%s\n%v\n", maskName(mask), run.Dump, run.Table, run.Out)
+	}
+	return out
+}
+
+func init() {
+	propC02.Before, propC02.After = canaryBracket("C02", 30, genC02, c02Ask)
 }
 
 func TestC02(t *testing.T)       { Run(t, propC02) }
